@@ -177,9 +177,54 @@ def apply_lop(ls, op, built=None):
         return ["err", O.cls_of(e)]
 
 
+def fixed_lazy():
+    """directed cases: a names assignment that a LATER member refuses after an earlier one accepted it (the new names clash with the
+    name of an extra dim of a nested tensordict only that member has) — fix 23f256e: the members get their names back"""
+    from tensordict import LazyStackedTensorDict, TensorDict
+
+    def hetero(sd, named_first):
+        m0 = TensorDict({"q": TensorDict({}, [2, 3])}, [2, 3], names=["w", None] if named_first else None)
+        m1 = TensorDict({"n": TensorDict({}, [2, 3, 1], names=["w", None, "x"] if named_first else [None, None, "x"])}, [2, 3],
+                        names=["w", None] if named_first else None)
+        m2 = TensorDict({"q": TensorDict({}, [2, 3])}, [2, 3], names=["w", None] if named_first else None)
+        return LazyStackedTensorDict(m0, m1, m2, stack_dim=sd)
+    out = []
+    for sd in (0, 1, 2):
+        for nf in (False, True):
+            for nm in (["x", "y"], ["y", "x"], ["y", "z"]):
+                names = list(nm)
+                names.insert(sd, "s")
+                out.append((hetero(sd, nf), ["lsetnames", names]))
+    return out
+
+
 def run_lazy(run, drv, rng, nh):
     from common import Infra, parse_sx
     recs = []
+
+    def one_step(ls, op, built, hid, stepno, pre):
+        case = {"container": "lazy-root", "history": hid, "step": stepno, "pre": pre, "op": op}
+        out = apply_lop(ls, op, built)
+        try:
+            post = lsnap(ls)
+            viol = O.walk_coherent(ls)
+        except Exception as e:  # noqa
+            run.oracle_fail("walk-lazy", case, f"the stack cannot be walked after {op[0]}: {type(e).__name__}: {str(e)[:120]}", "unobservable:" + op[0])
+            return False
+        run.case(__import__("json").dumps([pre, op]))
+        run.count("ops.lazy", op[0])
+        run.count("outcome.lazy", out[0] + (":" + out[1] if out[0] == "err" else ""))
+        recs.append({"case": case, "pre": pre, "op": op, "impl": [post, out]})
+        viol = [v for v in viol if "cannot be read" not in v]      # names that differ between members: readable again only member by member (observation)
+        if viol:
+            run.oracle_fail("walk-lazy", case, f"after {op[0]} ({out}): " + "; ".join(viol[:3]), f"lazy:{op[0]}:{out[0]}")
+            return False
+        run.oracle_ok("walk-lazy")
+        return True
+
+    for i, (ls, op) in enumerate(fixed_lazy()):
+        run.count("ops.lazy", "fixed:names-refused-by-later-member")
+        one_step(ls, op, None, f"fixed-{i}", 0, lsnap(ls))
     for hid in range(nh):
         try:
             ls = build_lazy(rng)
@@ -196,23 +241,8 @@ def run_lazy(run, drv, rng, nh):
                 except Exception:  # noqa
                     continue
                 op = ["linsert", op[1], O.snap(built)]
-            case = {"container": "lazy-root", "history": hid, "step": stepno, "pre": pre, "op": op}
-            out = apply_lop(ls, op, built)
-            try:
-                post = lsnap(ls)
-                viol = O.walk_coherent(ls)
-            except Exception as e:  # noqa
-                run.oracle_fail("walk-lazy", case, f"the stack cannot be walked after {op[0]}: {type(e).__name__}: {str(e)[:120]}", "unobservable:" + op[0])
+            if not one_step(ls, op, built, hid, stepno, pre):
                 break
-            run.case(__import__("json").dumps([pre, op]))
-            run.count("ops.lazy", op[0])
-            run.count("outcome.lazy", out[0] + (":" + out[1] if out[0] == "err" else ""))
-            recs.append({"case": case, "pre": pre, "op": op, "impl": [post, out]})
-            viol = [v for v in viol if "cannot be read" not in v]      # names that differ between members: readable again only member by member (observation)
-            if viol:
-                run.oracle_fail("walk-lazy", case, f"after {op[0]} ({out}): " + "; ".join(viol[:3]), f"lazy:{op[0]}:{out[0]}")
-                break
-            run.oracle_ok("walk-lazy")
     reqs = [f"(c01.lstep {sx_lz(r['pre'])} {sx_lop(r['op'])})" for r in recs]
     from check_C01 import ask_batched
     for r, a, q in zip(recs, ask_batched(drv, reqs), reqs):
